@@ -38,7 +38,7 @@ func (c c04Cfg) String() string {
 // confinement and promotion monitors.
 func c04Run(rec *evid.Rec, f fataler, cfg c04Cfg) {
 	var viol []mon.V
-	w := &World{rec: rec, cfg: WorldCfg{Monitors: mon.Of("canary-label", "canary-confinement", "promotion-rule", "create-eligible", "create-once", "no-panic"), Property: "C04"}, H: mon.NewHistory(), RSSeen: map[string]bool{}, RolesSynced: map[string]bool{}, Facts: map[string]int{}, lastSyncAt: map[string]time.Time{}, Det: true}
+	w := &World{rec: rec, cfg: WorldCfg{Monitors: mon.Of("canary-label", "canary-confinement", "promotion-rule", "create-eligible", "create-once", "canary-latch", "no-panic"), Property: "C04"}, H: mon.NewHistory(), RSSeen: map[string]bool{}, RolesSynced: map[string]bool{}, Facts: map[string]int{}, lastSyncAt: map[string]time.Time{}, Det: true}
 	w.OnViolation = func(vs []mon.V) { viol = append(viol, vs...) }
 	w.C = sim.New(sim.Options{})
 	for i := 0; i < cfg.Nodes; i++ {
